@@ -84,6 +84,8 @@ fn check_set(c: &Canon, locus: &str, case: &str, out: &mut WorkerOut) -> Option<
     if *declared != elems.len() { out.fail(format!("C14|wrong-size|{}", locus), case.to_string(), format!("declared size {} but {} elements: {}", declared, elems.len(), c.short())); }
     let kinds: BTreeSet<String> = elems.iter().map(|e| match e { Canon::Num(k, _) => k.clone(), o => o.kind_name() }).collect();
     if kinds.len() > 1 { out.fail(format!("C14|mixed-kinds|{}", locus), case.to_string(), format!("elements of kinds {:?} in a set declared {{{}}}: {}", kinds, kind, c.short())); }
+    // the set's own element kind must be the kind of its elements (scalar element kinds are comparable by name)
+    if kinds.len() == 1 { let k = kinds.iter().next().unwrap(); if ["f64", "u8", "i64", "r64", "string", "bool"].contains(&k.as_str()) && kind != k { out.fail(format!("C14|wrong-kind|{}", locus), case.to_string(), format!("set declared {{{}}} holds {} elements: {}", kind, k, c.short())); } }
     Some(uniq)
   } else { None }
 }
@@ -172,6 +174,12 @@ impl UnitRunner for C14 {
                 if let (Some(got), Some(want)) = (check_set(c, &locus, &case, out), want_keys(&want_cls)) {
                   if got != want { out.fail(format!("C14|wrong-result|{}", locus), case.clone(), format!("mathematical result has elements {:?}, got {}", want, c.short())); }
                 }
+                // the result is a set like any other: membership in it follows the definition
+                for e in 0..nel {
+                  out.evaluations += 1;
+                  let om = s.run(&format!("q{}x{} := {} ∈ r{}", n, e, u.elems[e], n));
+                  if let Outcome::Value(Canon::Bool(bv)) = &om { out.nontrivial += 1; if *bv != want_cls.contains(&u.class[e]) { out.fail(format!("C14|wrong-result|∈ after {}", locus), format!("{}; {} ∈ r", case, u.elems[e]), format!("got {}", bv)); } }
+                }
               }
               _ => {
                 let want = match *op { "⊆" => a_cls.is_subset(&b_cls), "⊇" => a_cls.is_superset(&b_cls), "⊊" => a_cls.is_subset(&b_cls) && a_cls != b_cls, _ => a_cls.is_superset(&b_cls) && a_cls != b_cls };
@@ -181,6 +189,29 @@ impl UnitRunner for C14 {
             }
           }
           _ => { out.count("operator_rejected"); out.set("rejected_operators", &format!("{} ({})", locus, o.short())); }
+        }
+      }
+      // operand forms: literal/variable on either side take different dispatch arms
+      if a_seq.len() <= 2 && b_seq.len() <= 2 {
+        for (fi, (l, r)) in [(a_lit.as_str(), "b"), ("a", b_lit.as_str()), (a_lit.as_str(), b_lit.as_str())].iter().enumerate() {
+          for (n, op) in OPS.iter().enumerate() {
+            out.evaluations += 1;
+            let o = s.run(&format!("f{}x{} := {} {} {}", fi, n, l, op, r));
+            let base = s.get(&format!("r{}", n));
+            let got = s.get(&format!("f{}x{}", fi, n));
+            let case = format!("a := {}; b := {}; r := {} {} {}", a_lit, b_lit, l, op, r);
+            match (&o, base, got) {
+              (Outcome::Panic(m), _, _) => out.fail(format!("C14|panic|{}:{}", op, uname), case, m.clone()),
+              (Outcome::Value(_), Some(bc), Some(gc)) => {
+                out.nontrivial += 1;
+                let same = match (&bc, &gc) { (Canon::Set(..), Canon::Set(..)) => math_key(&bc) == math_key(&gc), _ => bc == gc };
+                if !same { out.fail(format!("C14|operand-form-differs|{}:{}", op, uname), case, format!("with two variables: {} ; with this operand form: {}", bc.short(), gc.short())); }
+              }
+              (Outcome::Value(_), None, Some(gc)) => { out.count("form_accepted_where_variables_rejected"); let _ = gc; }
+              (_, Some(bc), _) => { out.fail(format!("C14|operand-form-rejected|{}:{}", op, uname), case, format!("accepted with two variables ({}), rejected in this form: {}", bc.short(), o.short())); }
+              _ => {}
+            }
+          }
         }
       }
       if ai % 7 == 0 && b_seq.len() == 2 && b_seq[0] == 0 { out.sample(json!({"a": a_lit, "b": b_lit, "union": s.get("r0").map(|c| c.short())})); }
